@@ -44,6 +44,8 @@ def gen(t, orders):
         a('w_m44_' + o, '%s& m, const %s& a' % (M4, V), 'm = %s(a, %s, %s::IJKLayout).toMatrix44();' % (Eu, P_, Eu), o=o, k='m44')
         a('w_x33_' + o, '%s& r, const %s& m' % (V, M3), '%s e(%s); e.extract(m); r = e;' % (Eu, P_), o=o, k='x33')
         a('w_x44_' + o, '%s& r, const %s& m' % (V, M3), '%s e(%s); %s n(m[0][0], m[0][1], m[0][2], 0, m[1][0], m[1][1], m[1][2], 0, m[2][0], m[2][1], m[2][2], 0, 0, 0, 0, 1); e.extract(n); r = e;' % (Eu, P_, M4), o=o, k='x44')
+        a('w_c33_' + o, '%s& r, const %s& m' % (V, M3), '%s e(m, %s); r = e;' % (Eu, P_), o=o, k='c33')
+        a('w_c44_' + o, '%s& r, const %s& m' % (V, M3), '%s n(m[0][0], m[0][1], m[0][2], 0, m[1][0], m[1][1], m[1][2], 0, m[2][0], m[2][1], m[2][2], 0, 0, 0, 0, 1); %s e(n, %s); r = e;' % (M4, Eu, P_), o=o, k='c44')
         a('w_q_' + o, '%s& m, const %s& a' % (M3, V), 'm = %s(a, %s, %s::IJKLayout).toQuat().toMatrix33();' % (Eu, P_, Eu), o=o, k='q')
         if len(set(o[:3])) == 3:
             a('w_perm_' + o, '%s& r, const %s& v' % (V, V), '%s e(%s); e.setXYZVector(v); r = e.toXYZVector();' % (Eu, P_), o=o, k='perm')
@@ -473,7 +475,13 @@ def main(rep, ws, tier):
                 for i in range(3):
                     if a_[i] is not b_[i] and not T.equiv(a_[i], b_[i], 100000):
                         return ('angle %d: extract(Matrix33) gives %s, extract(Matrix44) gives %s' % (i, T.show(a_[i], 4)[:160], T.show(b_[i], 4)[:160]), None, fn_where(S_('w_x44_' + o).fn))
-                return (None, 'identical value graphs for the three angles', fn_where(S_('w_x33_' + o).fn))
+                # the constructors from a matrix are extract() with the requested order
+                for nm, ref in (('w_c33_', a_), ('w_c44_', b_)):
+                    c_ = outs(S_(nm + o), 3)
+                    for i in range(3):
+                        if c_[i] is not ref[i] and not T.equiv(c_[i], ref[i], 100000):
+                            return ('angle %d: Euler(%s, order) gives %s, extract() gives %s' % (i, 'Matrix33' if nm == 'w_c33_' else 'Matrix44', T.show(c_[i], 4)[:160], T.show(ref[i], 4)[:160]), None, fn_where(S_(nm + o).fn))
+                return (None, 'identical value graphs for the three angles (extract on both matrix types, constructors from both)', fn_where(S_('w_x33_' + o).fn))
             ob('extract 3x3 vs 4x4', 'R11.x', x_)
             def q_():
                 qm = outs(S_('w_q_' + o), 9); m3 = outs(S_('w_m33_' + o), 9)
